@@ -1,20 +1,25 @@
-"""Generation of the per-run Coq files that prove, routine by routine over a regenerated interpreter model, that no
-execution panics, every value stays in the range of its Go type, and every bus access is below 2^24 (C08); the same
-engine (Props/SafeLib.v) is instantiated with other per-field predicates for C12."""
+"""Generation of the per-run Coq files over a regenerated interpreter model (engine: coq/Props/SafeLib.v).
+
+C08_<model>.v : one lemma per translated routine: no panic, every value in the range of its Go type, every bus access
+                below 2^24, under the per-field predicate map  BE ea cy ac  (constraints on StepInfo.EA, Cycles, AllCycles);
+                a routine that never assigns a field keeps ANY constraint on it (universally quantified predicate).
+C12_<model>.v : interval lemmas for the routines that adjust the cycle counter, the dispatch table, and the theorem
+                about Step: 1 <= cycles <= 255, AllCycles' = AllCycles + cycles, stop flag = Stopped."""
 import re
 
 SIG_RE = re.compile(r"\(\* (\S+):(\d+)  func (\S+) \*\)\nDefinition (\S+) ((?:\([^)]*\) ?)*)\s*(?:\(s : st\) )?: (res )?(.+?) :=\n")
+WIDTH = {"w8": 8, "w16": 16, "w32": 32, "w64": 64}
+EA, CY, AC, SP = "f_StepInfo_EA", "f_Cycles", "f_AllCycles", "f_Stopped"
+TRUE = "(fun _ => True)"
 
 
 def parse(path):
-    """-> list of dict(name, params [(n, ty)], monadic, ret, body) in definition order, and the proc table"""
     s = open(path).read()
     funcs = []
     for m in SIG_RE.finditer(s):
         name = m.group(4)
-        params = re.findall(r"\((\w+) : (\w+)\)", m.group(5))
+        params = [(n, t) for (n, t) in re.findall(r"\((\w+) : (\w+)\)", m.group(5)) if n != "s"]
         monadic = "(s : st)" in m.group(0)
-        params = [(n, t) for (n, t) in params if n != "s"]
         mb = re.search(r"\nDefinition %s [^\n]*:=\n(.*?)\.\n\n" % re.escape(name), s, re.S)
         funcs.append({"name": name, "params": params, "monadic": monadic, "ret": m.group(7).strip(), "body": mb.group(1) if mb else "",
                       "src": "%s:%s" % (m.group(1), m.group(2))})
@@ -33,110 +38,171 @@ def idents(body):
     return set(re.findall(r"[A-Za-z_][A-Za-z_0-9']*", body))
 
 
-WIDTH = {"w8": 8, "w16": 16, "w32": 32, "w64": 64}
+class Model:
+    def __init__(self, path, mod):
+        self.mod = mod
+        self.funcs, self.procs, self.tabs = parse(path)
+        self.names = [f["name"] for f in self.funcs]
+        self.byname = {f["name"]: f for f in self.funcs}
+        self.uses_ea, self.sets_cy, self.sets_ac, self.sets_sp, self.sp_val = {}, {}, {}, {}, {}
+        self.dn, self.up = {}, {}
+        for f in self.funcs:
+            ids = idents(f["body"])
+            body = f["body"]
+            callees = [c for c in self.names if c in ids and c != f["name"]]
+            tp = "tbl_proc" in ids
+            self.uses_ea[f["name"]] = EA in ids or tp or any(self.uses_ea.get(c) for c in callees)
+            self.sets_cy[f["name"]] = ("set " + CY) in body or tp or any(self.sets_cy.get(c) for c in callees)
+            self.sets_ac[f["name"]] = ("set " + AC) in body or tp or any(self.sets_ac.get(c) for c in callees)
+            self.sets_sp[f["name"]] = ("set " + SP) in body or tp or any(self.sets_sp.get(c) for c in callees)
+            m = re.findall(r"set f_Stopped \((b2z (?:true|false))\)", body)
+            if len(m) == 1 and body.count("set " + SP) == 1 and not tp and not any(self.sets_sp.get(c) for c in callees):
+                self.sp_val[f["name"]] = m[0]      # the routine assigns the stop flag exactly once, with this constant
+            # path-insensitive bounds of the net change of the cycle counter: sum over all syntactic occurrences
+            up = sum(int(k) for k in re.findall(r"set f_Cycles \(add8 \(get f_Cycles s\) (\d+)\)", body))
+            dn = sum(int(k) for k in re.findall(r"set f_Cycles \(sub8 \(get f_Cycles s\) (\d+)\)", body))
+            for c in callees:
+                n = len(re.findall(r"\b%s\b" % re.escape(c), body))
+                up += n * self.up.get(c, 0)
+                dn += n * self.dn.get(c, 0)
+            self.up[f["name"]], self.dn[f["name"]] = up, dn
 
-
-def generate(path, mod, ea_field="f_StepInfo_EA"):
-    funcs, procs, tabs = parse(path)
-    names = [f["name"] for f in funcs]
-    byname = {f["name"]: f for f in funcs}
-    # transitive use of the effective-address field / of tbl_proc
-    uses = {}
-    for f in funcs:
+    def callees(self, f):
         ids = idents(f["body"])
-        u = ea_field in ids or "tbl_proc" in ids
-        for c in names:
-            if c in ids and c != f["name"] and uses.get(c):
-                u = True
-        uses[f["name"]] = u
-    out = ["""(* GENERATED per run by checks/cpusafe.py: range/no-panic lemmas over the regenerated model %s (C08) *)
-From Coq Require Import ZArith List Bool NArith.
+        return [c for c in self.names if c in ids and c != f["name"] and self.byname[c]["monadic"]]
+
+
+def header(mod, what, extra_import=""):
+    return """(* GENERATED per run by checks/cpusafe.py: %s over the regenerated model %s *)
+From Coq Require Import ZArith List Bool NArith Lia.
 From Lib Require Import ZOps Machine.
 From Gen Require Import GenFields %s.
 From Props Require Import SafeLib CpuEqLib.
-Import ListNotations.
+%sImport ListNotations.
 Local Open Scope Z_scope.
 
-Notation BE ea := (ovr %s ea (Bty fwidth)).
+Notation BE ea cy ac sp := (ovr %s ea (ovr %s cy (ovr %s ac (ovr %s sp (Bty fwidth))))).
 
-""" % (mod, mod, ea_field)]
-    # tables: every entry is a byte
-    for t in tabs:
+""" % (what, mod, mod, extra_import, EA, CY, AC, SP)
+
+
+def preds(M, name):
+    """(quantifier text, ea, cy, ac) for routine name in the C08 family"""
+    q = []
+    ea = "(rng 24)" if M.uses_ea[name] else "ea"
+    cy = TRUE if M.sets_cy[name] else "cy"
+    ac = TRUE if M.sets_ac[name] else "ac"
+    sp = TRUE if M.sets_sp[name] else "sp"
+    for v, fixed in (("ea", M.uses_ea[name]), ("cy", M.sets_cy[name]), ("ac", M.sets_ac[name]), ("sp", M.sets_sp[name])):
+        if not fixed:
+            q.append("(%s : Z -> Prop)" % v)
+    return " ".join(q), ea, cy, ac, sp
+
+
+def premises(f):
+    prem = []
+    for n, t in f["params"]:
+        if t == "w32":
+            prem.append("rng 24 %s" % n)      # every 32-bit parameter of the interpreters is a bus address
+        elif t in WIDTH:
+            prem.append("rng %d %s" % (WIDTH[t], n))
+    return prem
+
+
+def result_pred(f):
+    # a 32-bit result of the bus helpers is a 24-bit address (nRead24_wrap / EaRead24_wrap)
+    return ("rng 24 r" if f["ret"] == "w32" else "rng %d r" % WIDTH[f["ret"]]) if f["ret"] in WIDTH else "True"
+
+
+def call_thunk(M, f, extra=None, prefer=None):
+    alts = []
+    for c in M.callees(f):
+        pat = "%s%s" % (c, " _" * (len(M.byname[c]["params"]) + 1))
+        if prefer and c in prefer:
+            alts.append("| |- safe _ (%s) => first [ eapply safeC_%s; solve_side | eapply safe_%s; solve_side ]" % (pat, c, c))
+        else:
+            alts.append("| |- safe _ (%s) => eapply safe_%s" % (pat, c))
+    if "tbl_proc" in idents(f["body"]):
+        alts.append("| |- safe _ (tbl_proc _ _) => eapply %s" % (extra or "safe_tbl_proc"))
+    return "fun _ => lazymatch goal with %s end" % " ".join(alts) if alts else "fun _ => fail"
+
+
+def table_lemmas(M):
+    out = []
+    for t in M.tabs:
         out.append("Lemma rng_%s : forall W i, 8 <= W -> rng W (%s i).\nProof. intros W i HW. apply (rng_weaken 8); [|exact HW]. unfold %s. apply rng_nth; [vm_compute; reflexivity | discriminate]. Qed.\n" % (t, t, t))
     for fld in ("mode", "size", "cycles", "opcode"):
         out.append("Lemma rngb_tbl_%s : forallb (fun op => in_rngb 8 (tbl_%s op)) (upto 256) = true.\nProof. vm_compute. reflexivity. Qed.\n"
                    "Lemma rng_tbl_%s : forall W op, 8 <= W -> rng 8 op -> rng W (tbl_%s op).\nProof. intros W op HW Hop. apply (rng_weaken 8); [|exact HW]. apply in_rngb_ok. apply (all_bytes_b _ rngb_tbl_%s op Hop). Qed.\n"
                    % (fld, fld, fld, fld, fld))
+    return out
+
+
+def hooks(M):
     hook = ["Ltac rng_hook ::=\n  lazymatch goal with"]
-    for t in tabs:
+    for t in M.tabs:
         hook.append("  | |- rng ?W (%s _) => apply rng_%s; side_le" % (t, t))
     for fld in ("mode", "size", "cycles", "opcode"):
         hook.append("  | |- rng ?W (tbl_%s _) => apply rng_tbl_%s; [side_le | solve_rng]" % (fld, fld))
     hook.append("  end.\n")
-    out.append("\n".join(hook))
+    return "\n".join(hook)
+
+
+def generate(path, mod):
+    """C08 family"""
+    M = Model(path, mod)
+    out = [header(mod, "range / no-panic lemmas (C08)")]
+    out += table_lemmas(M)
+    out.append(hooks(M))
+    out.append("Ltac set_hook Q f v s0 b H ::=\n  lazymatch f with\n  | %s => set_with_pred Q f v s0 b H (eq v)\n  | %s => set_with_pred Q f v s0 b H (rng 24)\n  end.\n" % (SP, EA))
     lemmas = []
     emitted_tbl = False
 
     def stmt(f):
-        ps = f["params"]
-        ea = "(rng 24)" if uses[f["name"]] else "ea"
-        quant = ("forall " if uses[f["name"]] else "forall (ea : Z -> Prop) ") + " ".join(n for n, _ in ps) + " s"
-        prem = []
-        for n, t in ps:
-            if t == "w32":
-                prem.append("rng 24 %s" % n)      # every 32-bit parameter of the interpreters is a bus address
-            elif t in WIDTH:
-                prem.append("rng %d %s" % (WIDTH[t], n))
-        # a 32-bit result of the interpreters' bus helpers is a 24-bit address (nRead24_wrap / EaRead24_wrap)
-        rt = ("rng 24 r" if f["ret"] == "w32" else "rng %d r" % WIDTH[f["ret"]]) if f["ret"] in WIDTH else "True"
-        call = " ".join([f["name"]] + [n for n, _ in ps] + ["s"])
-        return "%s, %sInv (BE %s) s -> safe (fun r s' => %s /\\ Inv (BE %s) s') (%s)" % (
-            quant, "".join(p + " -> " for p in prem), ea, rt, ea, call)
+        q, ea, cy, ac, sp = preds(M, f["name"])
+        sp_post = sp
+        if f["name"] in M.sp_val:          # e.g. op_stp: whatever held before, afterwards Stopped = the constant
+            q, sp, sp_post = q + " (sp : Z -> Prop)", "sp", "(eq (%s))" % M.sp_val[f["name"]]
+        ps = " ".join(n for n, _ in f["params"])
+        call = " ".join([f["name"]] + [n for n, _ in f["params"]] + ["s"])
+        return "forall %s %s s, %sInv (BE %s %s %s %s) s -> safe (fun r s' => %s /\\ Inv (BE %s %s %s %s) s') (%s)" % (
+            q, ps, "".join(p + " -> " for p in premises(f)), ea, cy, ac, sp, result_pred(f), ea, cy, ac, sp_post, call)
 
     def tbl_lemma():
-        lines = ["Lemma safe_tbl_proc : forall op s, rng 8 op -> Inv (BE (rng 24)) s -> safe (fun r s' => True /\\ Inv (BE (rng 24)) s') (tbl_proc op s).",
+        lines = ["Lemma inv_sp_weaken (ea cy ac sp sp' : Z -> Prop) s : Inv (BE ea cy ac sp) s -> (forall v, sp v -> sp' v) -> Inv (BE ea cy ac sp') s.",
+                 "Proof. intros H HW. revert H. do 3 apply inv_ovr_map. apply inv_ovr_weaken. exact HW. Qed.\n",
+                 "Lemma safe_tbl_proc : forall op s, rng 8 op -> Inv (BE (rng 24) %s %s %s) s -> safe (fun r s' => True /\\ Inv (BE (rng 24) %s %s %s) s') (tbl_proc op s)." % (TRUE, TRUE, TRUE, TRUE, TRUE, TRUE),
                  "Proof.",
                  "  intros op s Hop. revert s. pattern op. apply all_bytes; [|exact Hop].",
                  "  cbv [upto app Z.of_nat Pos.of_succ_nat Pos.succ]."]
-        for k, pname in enumerate(procs):
-            lines.append("  apply Forall_cons; [ intros s0 Hi0; change (tbl_proc %d s0) with (%s s0); eapply safe_%s; exact Hi0 | ]." % (k, pname, pname))
+        for k, pname in enumerate(M.procs):
+            if pname in M.sp_val:
+                lines.append("  apply Forall_cons; [ intros s0 Hi0; change (tbl_proc %d s0) with (%s s0); eapply safe_weaken; [ eapply safe_%s; exact Hi0 | intros r1 s1 [Hr1 Hi1]; split; [exact I | eapply inv_sp_weaken; [exact Hi1 | intros; exact I]] ] | ]." % (k, pname, pname))
+            else:
+                lines.append("  apply Forall_cons; [ intros s0 Hi0; change (tbl_proc %d s0) with (%s s0); eapply safe_%s; exact Hi0 | ]." % (k, pname, pname))
         lines.append("  apply Forall_nil.")
         lines.append("Qed.\n")
         out.append("\n".join(lines))
         lemmas.append("safe_tbl_proc")
 
-    for f in funcs:
+    for f in M.funcs:
         if not f["monadic"]:
             continue
         name = f["name"]
-        ids = idents(f["body"])
-        if "tbl_proc" in ids and not emitted_tbl:
+        if "tbl_proc" in idents(f["body"]) and not emitted_tbl:
             tbl_lemma()
             emitted_tbl = True
-        cs = [c for c in names if c in ids and c != name and byname[c]["monadic"]]
-        alts = ["| |- safe _ (%s%s) => eapply safe_%s" % (c, " _" * (len(byname[c]["params"]) + 1), c) for c in cs]
-        if "tbl_proc" in ids:
-            alts.append("| |- safe _ (tbl_proc _ _) => eapply safe_tbl_proc")
-        call = "fun _ => lazymatch goal with %s end" % " ".join(alts) if alts else "fun _ => fail"
+        call = call_thunk(M, f)
         if name == "Step":
-            out.append("""Ltac set_hook Q f v s0 b H ::=
-  lazymatch f with
-  | %s =>
-      let Hn := fresh "Hi" in
-      assert (Hn : Inv (BE (rng 24)) (set f v s0)) by (eapply inv_reset_ovr; [exact H | prove_B | cbv beta; solve_rng]);
-      change (safe Q (b (set f v s0))); cbv beta;
-      let s1 := fresh "s" in generalize (set f v s0) Hn; clear Hn; intros s1 Hn
-  end.
-
-Lemma safe_Step_ea : forall s, Inv (BE (fun _ => True)) s -> safe (fun r s' => True /\\ Inv (BE (rng 24)) s') (Step s).
+            out.append("""Lemma safe_Step_ea : forall s, Inv (BE %s %s %s %s) s -> safe (fun r s' => True /\\ Inv (BE (rng 24) %s %s %s) s') (Step s).
 Proof. intros; cbv beta delta [Step]; safe_run ltac:(%s). Qed.
 
 (* C08, one instruction: from ANY state whose fields are within their Go types (every E, D, width, pending interrupt,
    stale register copies, arbitrary StepInfo) and any memory: no panic, fields stay in range, every bus access < 2^24 *)
 Theorem C08_step_%s : forall s, Inv (Bty fwidth) s -> safe (fun r s' => Inv (Bty fwidth) s') (Step s).
 Proof.
-  intros s H. eapply safe_weaken; [apply safe_Step_ea; apply inv_ovr_true; exact H|].
-  intros r s' [_ H']. cbv beta. eapply inv_ovr_base; exact H'.
+  intros s H. eapply safe_weaken; [apply safe_Step_ea; do 4 apply inv_ovr_true; exact H|].
+  intros r s' [_ H']. cbv beta. do 4 (eapply inv_ovr_base in H'). exact H'.
 Qed.
 
 (* every program: n steps from such a state never panic, and all recorded bus accesses are inside the 24-bit space *)
@@ -150,10 +216,182 @@ Qed.
 Corollary C08_trace_%s : forall n s, Inv (Bty fwidth) s ->
   match run Step n s with Ok _ s' => Forall ev_ok (trace s') | Panic => False end.
 Proof. intros n s H. pose proof (C08_run_%s n s H) as HR. destruct (run Step n s); simpl in HR; [exact (proj2 HR)|exact HR]. Qed.
-""" % (ea_field, call, mod, mod, mod, mod, mod))
+""" % (TRUE, TRUE, TRUE, TRUE, TRUE, TRUE, TRUE, call, mod, mod, mod, mod, mod))
             lemmas += ["safe_Step_ea", "C08_step_" + mod, "C08_run_" + mod, "C08_trace_" + mod]
             continue
         out.append("Lemma safe_%s : %s.\nProof. intros; cbv beta delta [%s]; safe_run ltac:(%s). Qed.\n" % (name, stmt(f), name, call))
         lemmas.append("safe_" + name)
     out.append("Print Assumptions C08_step_%s.\nPrint Assumptions C08_run_%s.\nPrint Assumptions C08_trace_%s.\n" % (mod, mod, mod))
-    return "\n".join(out), {"lemmas": lemmas, "functions": len(funcs)}
+    return "\n".join(out), {"lemmas": lemmas, "functions": len(M.funcs)}
+
+
+def generate_c12(path, mod):
+    """C12 family: imports the C08 file of the same model"""
+    M = Model(path, mod)
+    out = [header(mod, "cycle accounting and stop flag (C12)", "From Run Require Import C08_%s.\n" % mod)]
+    out.append(hooks(M))
+    stp_ops = [k for k, p in enumerate(M.procs) if p in M.sp_val]
+    stp_cond = " \\/ ".join("op = %d" % k for k in stp_ops) if stp_ops else "False"
+    out.append("""Lemma inv_cyc_weaken (ea ac sp : Z -> Prop) lo hi lo' hi' s :
+  Inv (BE ea (cyc lo hi) ac sp) s -> lo' <= lo -> hi <= hi' -> Inv (BE ea (cyc lo' hi') ac sp) s.
+Proof.
+  intros H H1 H2. revert H. apply inv_ovr_map. apply inv_ovr_weaken. intros v Hv. eapply cyc_weaken; eassumption.
+Qed.
+
+(* the stop flag after one dispatched routine: unchanged, or 1 and the opcode is STP *)
+Definition sp_after (st0 op : Z) (v : Z) : Prop := v = st0 \\/ ((%s) /\\ v = 1).
+
+Ltac side_hook ::= lia.
+Ltac cont_done x ::= idtac.
+Ltac ok_hook ::= eapply inv_cyc_weaken; [ eassumption | lia | lia ].
+Ltac pred_hook ::=
+  lazymatch goal with
+  | |- cyc _ _ (add8 (get ?g ?s0) ?e) =>
+      match goal with H : Inv _ s0 |- _ => let pf := get_pred_pf H g in eapply (cyc_add8 _ _ _ e e e pf); lia end
+  | |- cyc _ _ (sub8 (get ?g ?s0) ?e) =>
+      match goal with H : Inv _ s0 |- _ => let pf := get_pred_pf H g in eapply (cyc_sub8 _ _ _ e e e pf); lia end
+  | |- cyc _ _ _ => unfold cyc; lia
+  end.
+Ltac cyc_of H := lazymatch type of H with context [ovr %s ?P _] => P end.
+Ltac set_hook Q f v s0 b H ::=
+  lazymatch f with
+  | %s => set_with_pred Q f v s0 b H (rng 24)
+  | %s => set_with_pred Q f v s0 b H (eq v)
+  | %s =>
+      let P := cyc_of H in
+      lazymatch P with
+      | cyc ?lo ?hi =>
+          lazymatch v with
+          | add8 (get %s s0) ?e => set_with_pred Q f v s0 b H (cyc (lo + e) (hi + e))
+          | sub8 (get %s s0) ?e => set_with_pred Q f v s0 b H (cyc (lo - e) (hi - e))
+          end
+      end
+  end.
+""" % (stp_cond, CY, EA, SP, CY, CY, CY))
+    lemmas = []
+    setters = [f for f in M.funcs if f["monadic"] and M.sets_cy[f["name"]] and f["name"] not in ("Step", "nmi") and "tbl_proc" not in idents(f["body"])]
+    setter_names = set(f["name"] for f in setters)
+    for f in setters:
+        name = f["name"]
+        ea = "(rng 24)" if M.uses_ea[name] else "ea"
+        q = ("" if M.uses_ea[name] else "(ea : Z -> Prop) ") + "(ac sp : Z -> Prop) lo hi"
+        ps = " ".join(n for n, _ in f["params"])
+        call = " ".join([name] + [n for n, _ in f["params"]] + ["s"])
+        dn, up = M.dn[name], M.up[name]
+        out.append("Lemma safeC_%s : forall %s %s s, %sInv (BE %s (cyc lo hi) ac sp) s -> 0 <= lo - %d -> hi + %d <= 255 ->\n  safe (fun r s' => %s /\\ Inv (BE %s (cyc (lo - %d) (hi + %d)) ac sp) s') (%s).\nProof. intros; cbv beta delta [%s]; safe_run ltac:(%s). Qed.\n"
+                   % (name, q, ps, "".join(p + " -> " for p in premises(f)), ea, dn, up, result_pred(f), ea, dn, up, call, name, call_thunk(M, f, prefer=setter_names)))
+        lemmas.append("safeC_" + name)
+    out.append("Definition pdn (op : Z) : Z :=\n  match op with\n" + "\n".join("  | %d => %d" % (k, M.dn[p]) for k, p in enumerate(M.procs) if M.dn[p]) + "\n  | _ => 0\n  end.\n")
+    out.append("Definition pup (op : Z) : Z :=\n  match op with\n" + "\n".join("  | %d => %d" % (k, M.up[p]) for k, p in enumerate(M.procs) if M.up[p]) + "\n  | _ => 0\n  end.\n")
+    lines = ["Lemma safeC_tbl_proc : forall (ac : Z -> Prop) st0 lo hi op s, rng 8 op -> Inv (BE (rng 24) (cyc lo hi) ac (eq st0)) s -> 0 <= lo - pdn op -> hi + pup op <= 255 ->",
+             "  safe (fun r s' => True /\\ Inv (BE (rng 24) (cyc (lo - pdn op) (hi + pup op)) ac (sp_after st0 op)) s') (tbl_proc op s).",
+             "Proof.",
+             "  intros ac st0 lo hi op s Hop. revert s. pattern op. apply all_bytes; [|exact Hop].",
+             "  cbv [upto app Z.of_nat Pos.of_succ_nat Pos.succ]."]
+    pre = "intros s0 Hi0 H1 H2; cbv beta iota delta [pdn pup] in H1, H2 |- *; change (tbl_proc %d s0) with (%s s0)"
+    keep = "eapply inv_sp_weaken; [ | intros v Hv; left; symmetry; exact Hv ]"
+    for k, p in enumerate(M.procs):
+        if p in setter_names:
+            lines.append(("  apply Forall_cons; [ " + pre + "; eapply safe_weaken; [ eapply safeC_%s; [exact Hi0 | lia | lia] | intros r1 s1 [Hr1 Hi1]; split; [exact I | " + keep + "; exact Hi1 ] ] | ].") % (k, p, p))
+        elif p in M.sp_val:
+            lines.append(("  apply Forall_cons; [ " + pre + "; eapply safe_weaken; [ eapply safe_%s; exact Hi0 | intros r1 s1 [Hr1 Hi1]; split; [exact I | eapply inv_sp_weaken; [ eapply inv_cyc_weaken; [exact Hi1 | lia | lia] | intros v Hv; right; split; [ auto | symmetry; exact Hv ] ] ] ] | ].") % (k, p, p))
+        else:
+            lines.append(("  apply Forall_cons; [ " + pre + "; eapply safe_weaken; [ eapply safe_%s; exact Hi0 | intros r1 s1 [Hr1 Hi1]; split; [exact I | " + keep + "; eapply inv_cyc_weaken; [exact Hi1 | lia | lia] ] ] | ].") % (k, p, p))
+    lines += ["  apply Forall_nil.", "Qed.\n"]
+    out.append("\n".join(lines))
+    lemmas.append("safeC_tbl_proc")
+    decm, decx, pc, dl = "tab_decCycles_flagM", "tab_decCycles_flagX", "tab_incCycles_PageCross", "tab_incCycles_regDL_not00"
+    out.append("""(* the tables leave room: per opcode, base - decM - decX - (the routine's decrement) >= 1 and nothing exceeds 255 *)
+Definition cyc_room (op : Z) : bool :=
+  (0 <=? %s op) && (0 <=? %s op) && (0 <=? %s op) && (0 <=? %s op) &&
+  (1 + pdn op + %s op + %s op <=? tbl_cycles op) &&
+  (tbl_cycles op + %s op + %s op + pup op <=? 255) && (0 <=? pdn op) && (0 <=? pup op).
+Lemma cyc_room_all : forallb cyc_room (upto 256) = true.
+Proof. vm_compute. reflexivity. Qed.
+Lemma cyc_room_op : forall op, rng 8 op ->
+  0 <= %s op /\\ 0 <= %s op /\\ 0 <= %s op /\\ 0 <= %s op /\\
+  1 + pdn op + %s op + %s op <= tbl_cycles op /\\
+  tbl_cycles op + %s op + %s op + pup op <= 255 /\\ 0 <= pdn op /\\ 0 <= pup op.
+Proof.
+  intros op Hop. pose proof (all_bytes_b _ cyc_room_all op Hop) as H. unfold cyc_room in H.
+  repeat (apply andb_true_iff in H; destruct H as [H ?]).
+  repeat match goal with Hb : (_ <=? _) = true |- _ => apply Z.leb_le in Hb end. lia.
+Qed.
+""" % (decm, decx, pc, dl, decm, decx, pc, dl, decm, decx, pc, dl, decm, decx, pc, dl))
+    step = M.byname["Step"]
+    call = call_thunk(M, step, extra="safeC_tbl_proc")
+    out.append("""Definition StepPost (a0 st0 : Z) (r : w0 * bool) (s' : st) : Prop :=
+  exists c, r = (c, z2b (get f_Stopped s')) /\\ 1 <= c <= 255 /\\ get f_Cycles s' = c /\\ get f_AllCycles s' = add64 a0 c /\\
+            (get f_Stopped s' = st0 \\/ get f_Stopped s' = 1).
+
+Ltac gs := repeat (rewrite get_set_same || rewrite get_set_other by reflexivity).
+
+(* the end of Step: AllCycles += Cycles; PC += stepPC; return (Cycles, Stopped) *)
+Ltac step_tail a0 s0 H :=
+  let Hc := fresh "Hc" in let Ha := fresh "Ha" in let Hs := fresh "Hs" in
+  (let pf := get_pred_pf H %s in pose proof pf as Hc); (let pf := get_pred_pf H %s in pose proof pf as Ha);
+  (let pf := get_pred_pf H %s in pose proof pf as Hs);
+  cbv beta in Hc, Ha, Hs; unfold cyc in Hc; unfold sp_after in Hs;
+  cbv zeta; gs;
+  match goal with |- safe _ (if ?c then _ else _) => let E := fresh "E" in destruct c eqn:E; cbv beta;
+    (split;
+     [ unfold StepPost; exists (get %s s0); gs; rewrite E;
+       split; [reflexivity|]; split; [lia|]; split; [reflexivity|]; split; [rewrite <- Ha; reflexivity|];
+       destruct Hs as [Hs|[_ Hs]]; [left | right]; exact Hs
+     | apply inv_set; [ apply inv_set; [ do 4 (eapply inv_ovr_base in H); exact H | prove_B ] | prove_B ] ])
+  end.
+
+Ltac set_hook Q f v s0 b H ::=
+  lazymatch f with
+  | %s => set_with_pred Q f v s0 b H (rng 24)
+  | %s =>
+      lazymatch v with
+      | tbl_cycles ?op =>
+          (* from here on the counter is tracked as an interval; the tables leave room for every adjustment *)
+          (let Hop := fresh "Hop" in assert (Hop : rng 8 op) by solve_rng; pose proof (cyc_room_op op Hop));
+          set_with_pred Q f v s0 b H (cyc (tbl_cycles op) (tbl_cycles op))
+      | _ =>
+          let P := cyc_of H in
+          lazymatch P with
+          | cyc ?lo ?hi =>
+              lazymatch v with
+              | add8 (get %s s0) ?e => set_with_pred Q f v s0 b H (cyc (lo + e) (hi + e))
+              | sub8 (get %s s0) ?e => set_with_pred Q f v s0 b H (cyc (lo - e) (hi - e))
+              end
+          end
+      end
+  | %s =>
+      lazymatch Q with
+      | (fun r s' => StepPost ?a0 _ r s' /\\ _) => step_tail a0 s0 H
+      end
+  end.
+
+Lemma step_cycles : forall a0 st0 s, Inv (BE %s %s (eq a0) (eq st0)) s ->
+  safe (fun r s' => StepPost a0 st0 r s' /\\ Inv (Bty fwidth) s') (Step s).
+Proof. intros; cbv beta delta [Step]; safe_run ltac:(%s). Qed.
+
+(* C12 (i)+(ii): every Step reports between 1 and 255 cycles, adds exactly that number to the running total
+   (mod 2^64), reports the stop condition exactly when the Stopped field is set, and never clears that field: it
+   keeps its value or becomes 1 (the dispatch lemma safeC_tbl_proc shows the latter only for opcode(s) %s);
+   from ANY state with fields in their Go types *)
+Theorem C12_step_%s : forall s, Inv (Bty fwidth) s ->
+  safe (fun r s' => (exists c, r = (c, z2b (get f_Stopped s')) /\\ 1 <= c <= 255 /\\
+                     get f_AllCycles s' = add64 (get f_AllCycles s) c /\\
+                     (get f_Stopped s' = get f_Stopped s \\/ get f_Stopped s' = 1)) /\\ Inv (Bty fwidth) s') (Step s).
+Proof.
+  intros s H. eapply safe_weaken; [apply (step_cycles (get f_AllCycles s) (get f_Stopped s)) | ].
+  - apply inv_ovr_true. apply inv_ovr_true. apply inv_ovr_intro; [apply inv_ovr_intro; [exact H | reflexivity] | reflexivity].
+  - intros r s' [(c & Hr & Hc & _ & Ha & Hs) Hi]. split; [exists c; auto | exact Hi].
+Qed.
+
+(* the contract RunUntil needs (Props/RunProps.v): on good states Step does not panic, reports 1..255 cycles, stays good *)
+Lemma step_contract_%s : forall s, Inv (Bty fwidth) s ->
+  match Step s with Ok (n, _) s' => 1 <= n <= 255 /\\ Inv (Bty fwidth) s' | Panic => False end.
+Proof.
+  intros s H. pose proof (C12_step_%s s H) as HS. destruct (Step s) as [[n b] s'|]; simpl in HS; [|exact HS].
+  destruct HS as [(c & Hr & Hc & _) Hi]. inversion Hr; subst. auto.
+Qed.
+Print Assumptions C12_step_%s.
+""" % (CY, AC, SP, CY, EA, CY, CY, CY, AC, TRUE, TRUE, call, stp_ops, mod, mod, mod, mod))
+    lemmas += ["step_cycles", "C12_step_" + mod, "step_contract_" + mod]
+    return "\n".join(out), {"lemmas": lemmas, "setters": sorted(setter_names), "stp_opcodes": stp_ops}
